@@ -2,8 +2,9 @@ SPECIFICATION MCSpec
 CONSTANTS Tabs = {1, 2}
   Classes = {0, 1, 2}
   Ptrs = {1, 2}
-  Vals = {1, 2, 3}
-  MaxSteps = 5
+  Vals = {1, 2}
+  MaxSteps = 4
   FlagWords = {0, 1, 3, 4}
 INVARIANTS DeadIsEmpty IterInv WellFormed AtMostOnce NoDangling
+CONSTRAINT Bound
 CHECK_DEADLOCK FALSE
